@@ -83,15 +83,20 @@ class Reject(Exception):
 
 
 def np_index(spec):
+    """The index object handed to biotite. 'as' selects another spelling numpy accepts for the same index:
+    a numpy integer scalar, a Python list of ints / bools, an int32 array."""
     t = spec["t"]
+    how = spec.get("as")
     if t == "int":
-        return spec["v"]
+        return np.int64(spec["v"]) if how == "npint" else spec["v"]
     if t == "slice":
         return slice(*spec["v"])
     if t == "mask":
-        return np.array(spec["v"], dtype=bool)
+        return [bool(x) for x in spec["v"]] if how == "list" and spec["v"] else np.array(spec["v"], dtype=bool)
     if t == "arr":
-        return np.array(spec["v"], dtype=np.int64)
+        if how == "list" and spec["v"]:
+            return [int(x) for x in spec["v"]]
+        return np.array(spec["v"], dtype=np.int32 if how == "int32" else np.int64)
     if t == "ell":
         return Ellipsis
     raise AssertionError(t)
@@ -556,7 +561,24 @@ def gen_1d(rng, L, allow_dup, faulty):
         return {"t": "arr", "v": v}
 
 
+def spell(rng, spec):
+    """Randomly choose another spelling of the same one-axis index (index operations only)."""
+    for sub in (spec, spec.get("a"), spec.get("b")):
+        if isinstance(sub, dict) and rng.random() < 0.25:
+            if sub["t"] == "int":
+                sub["as"] = "npint"
+            elif sub["t"] == "mask":
+                sub["as"] = "list"
+            elif sub["t"] == "arr":
+                sub["as"] = rng.choice(["list", "int32"])
+    return spec
+
+
 def gen_index(rng, m, faulty):
+    return spell(rng, _gen_index(rng, m, faulty))
+
+
+def _gen_index(rng, m, faulty):
     allow_dup = m.bonds is None
     if m.kind == "array":
         if rng.random() < 0.08:
